@@ -1023,6 +1023,8 @@ class UnknownTRE(TRE):
             raise TypeError('TAG must be a string. Got {}'.format(type(TAG)))
         if len(TAG) > 6:
             raise ValueError('TAG must be 6 or fewer characters')
+        if len(data) > 99999:
+            raise ValueError('TRE data must be 99999 or fewer bytes (CEL has five digits). Got {}'.format(len(data)))
 
         self._TAG = TAG
         self._data = data
@@ -1039,6 +1041,8 @@ class UnknownTRE(TRE):
     def DATA(self, value):
         if not isinstance(value, bytes):
             raise TypeError('data must be a bytes instance. Got {}'.format(type(value)))
+        if len(value) > 99999:
+            raise ValueError('TRE data must be 99999 or fewer bytes (CEL has five digits). Got {}'.format(len(value)))
         self._data = value
 
     @property
